@@ -89,6 +89,7 @@ def run(tier, seed, replay):
                     items.append(("s%d:%d:%d" % (c, k, size), ["R%d" % c], k, size))
                 else:
                     c = rng.randrange(ncl)
+                    k = rng.randrange(5)          # five client event channels against two server event channels (kinds 0, 2, 4 ordered)
                     items.append(("c%d:%d:%d" % (c, k, size), ["RS:%d" % c], k, size))
             if r == victim_round:
                 items.insert(rng.randrange(len(items) + 1), ("s%d:0:70000" % victim, ["R%d" % victim], 0, 70000))     # does not fit the 16-bit length prefix
@@ -116,6 +117,8 @@ def run(tier, seed, replay):
                     if name == "RS":
                         who, it = it.split(":")
                         key = "RS:" + who
+                    elif it.startswith("L:"):
+                        continue          # a client whose connection was dropped acts as singleplayer: its own events come back locally (C13's business)
                     else:
                         key = name
                     k, sq, size, okf = it.split(".")
@@ -132,9 +135,14 @@ def run(tier, seed, replay):
             if sorted((k, sq, size) for (k, sq, size, _) in have) != sorted(want):
                 oracle_fail.append(dict(request=l[:600], implementation=o[:600], why="recipient %s: messages lost or duplicated (sent %d, arrived %d)" % (key, len(want), len(have))))
                 break
-            ordered = [sq for (k, sq, _, _) in have if k == 0]
-            if ordered != sorted(ordered):
-                oracle_fail.append(dict(request=l[:600], implementation=o[:600], why="recipient %s: ordered channel out of sending order %r" % (key, ordered[:20])))
+            bad_order = False
+            for ok_ in (0, 2, 4):
+                ordered = [sq for (k, sq, _, _) in have if k == ok_]
+                if ordered != sorted(ordered):
+                    oracle_fail.append(dict(request=l[:600], implementation=o[:600], why="recipient %s: ordered channel %d out of sending order %r" % (key, ok_, ordered[:20])))
+                    bad_order = True
+                    break
+            if bad_order:
                 break
     rep.cov["backend_runs"] = dict(cases=nback, rule="real server + 1-3 client apps over loopback TCP through the backend plugins, up to 30 events per frame and direction, one oversized message to one client in some cases")
     # messages waiting in the socket before the receiver's FIRST frame (the server is several frames ahead of a new client)
